@@ -1,13 +1,18 @@
 import KitModel.Dir
 import KitModel.Generated.C18
 import KitProofs.Lemmas.Dir
+import KitProofs.Lemmas.DirListing
 /-!
 # C18 — dir.Write: the target is always one complete file set; crashes never block later writes
 
 Everything is stated over `Kit.Dir.run B (init fs0) evs`: an arbitrary history `evs` of `Write`
 calls on one target, each either running to its return (`Ev.write files`) or killed after an
 arbitrary number `k` of its file-system operations (`Ev.crash files k`, after which a fresh `Dir`
-with no `prev` continues). `fs0` is any initial file system that is `Clean` for the base `B`.
+with no `prev` continues). `fs0` is any initial file system that is `Clean` for the base `B`
+(the property's own quantifier: first process on a new target) or, in the section on
+pre-existing entries, any `Prior B c0 fs0` (whatever earlier processes may have left).
+File names: `AllValid files` = every name is a single path component (`validName`); a `Write`
+with another name fails at that file (model: `Op.badName`).
 Since the last event may be a `crash` at any `k`, "the state after the history" ranges over every
 instant between two file-system operations of any `Write` — what a concurrent reader can see.
 -/
@@ -33,17 +38,18 @@ theorem prev_assigned_last : setPrevIsLast Kit.Generated.C18.writeBody = true :=
 /-- The version directory is `filepath.Join(d.base, "<UnixNano>-<targetDir>")`. -/
 theorem newDir_shape : Kit.Generated.C18.newDirIsBaseJoinStampTargetDir = true := by decide
 
-/-! ### the property -/
+/-! ### the property (first process on a new target: `Clean`) -/
 
 /-- At every instant of every history the target is absent or resolves to a directory whose
-content is exactly the file map of one single `Write` call of that history. -/
+content is exactly the file map of one single `Write` call of that history. (No hypothesis on
+the file names: a `Write` with an invalid name fails without touching the target.) -/
 theorem target_always_complete (B : Path) (fs0 : FS) (h0 : Clean B fs0) (evs : List Ev) :
     resolve (run B (init fs0) evs).fs (target B) = none ∨
     ∃ n files, files ∈ evs.map Ev.files ∧
       resolve (run B (init fs0) evs).fs (target B) = some (verDir B n, .dir) ∧
       DirIs (run B (init fs0) evs).fs (verDir B n) (asMap files) := by
-  have h := (inv_history B fs0 h0 evs).1.tgt
-  rcases h with h | ⟨n, files, _, hmem, hl, hd⟩
+  have h := absent_or_complete_of_clean h0 (inv_history B fs0 h0 evs).1.tgt
+  rcases h with h | ⟨n, files, _, _, hmem, hl, hd⟩
   · exact Or.inl (resolve_none _ _ h)
   · exact Or.inr ⟨n, files, by simpa using hmem, resolve_link_dir _ _ _ hl hd.1, hd⟩
 
@@ -54,31 +60,62 @@ example : Clean [.str "etc", .str "certs"] [([.str "etc"], .dir), ([.str "other"
     intro h3; subst h3; simp [List.cons_prefix_cons] at hq
   · intro x r; simp [look, get]
 
+/-- The same in terms of the EXECUTABLE listing the driver prints and the harness compares with
+what the real reader gets from ReadDir + ReadFile through the link: `dirListing` of the resolved
+directory is the file map of one `Write` call. -/
+theorem target_always_complete_exec (B : Path) (fs0 : FS) (h0 : Clean B fs0) (evs : List Ev) :
+    resolve (run B (init fs0) evs).fs (target B) = none ∨
+    ∃ n files l, files ∈ evs.map Ev.files ∧
+      resolve (run B (init fs0) evs).fs (target B) = some (verDir B n, .dir) ∧
+      dirListing (run B (init fs0) evs).fs (verDir B n) = some l ∧
+      ∀ nm, lookupL l nm = asMap files nm := by
+  rcases target_always_complete B fs0 h0 evs with h | ⟨n, files, hmem, hr, hd⟩
+  · exact Or.inl h
+  · obtain ⟨l, hl, hlm⟩ := dirListing_complete _ _ _ hd
+    exact Or.inr ⟨n, files, l, hmem, hr, hl, hlm⟩
+
+/-- Bridge `DirIs` (through `look`) ↔ executable `dirListing`, for EVERY association list. -/
+theorem dirListing_iff_DirIs (fs : FS) (d : Path) (m : Name → Option Bytes) :
+    (∃ l, dirListing fs d = some l ∧ ∀ nm, lookupL l nm = m nm) ↔ DirIs fs d m := by
+  constructor
+  · rintro ⟨l, hl, hm⟩
+    have := (dirListing_sound fs d l hl).1
+    have e : lookupL l = m := funext hm
+    rw [e] at this; exact this
+  · exact dirListing_complete fs d m
+
 /-- The target never disappears again: once present it is present after any continuation. -/
 theorem target_never_disappears (B : Path) (fs0 : FS) (h0 : Clean B fs0) (e1 e2 : List Ev)
     (h : look (run B (init fs0) e1).fs (target B) ≠ none) :
     look (run B (init fs0) (e1 ++ e2)).fs (target B) ≠ none := by
   rw [run_append]
-  exact (inv_run B e2 _ _ (inv_history B fs0 h0 e1)).2 h
+  exact (inv_run B fs0 0 (prior_of_clean h0) e2 _ _ (inv_history B fs0 h0 e1)).2.1 h
 
-/-- Every `Write` of every history returns nil, and the target then shows exactly its file map —
-whatever happened before (crashes at any point, any number of them). -/
-theorem write_always_succeeds (B : Path) (fs0 : FS) (h0 : Clean B fs0) (evs : List Ev) (files : Files) :
+/-- Every `Write` with valid file names, after ANY history (crashes at any point, failed Writes,
+any number of them), returns nil, and the target then shows exactly its file map. -/
+theorem write_always_succeeds (B : Path) (fs0 : FS) (h0 : Clean B fs0) (evs : List Ev)
+    (files : Files) (hv : AllValid files) :
     (run B (init fs0) (evs ++ [.write files])).lastErr = none ∧
     resolve (run B (init fs0) (evs ++ [.write files])).fs (target B)
       = some (verDir B (run B (init fs0) evs).clock, .dir) ∧
     DirIs (run B (init fs0) (evs ++ [.write files])).fs
       (verDir B (run B (init fs0) evs).clock) (asMap files) := by
-  obtain ⟨fs', hstep, hfin⟩ := write_result B _ _ files (inv_history B fs0 h0 evs)
+  have hinv := inv_history B fs0 h0 evs
+  have hnd := tgt_not_dir hinv (by simp [clean_target_none h0])
+  obtain ⟨fs', hstep, hfin⟩ := write_result B fs0 0 (prior_of_clean h0) _ _ files hinv hv hnd
   have : run B (init fs0) (evs ++ [.write files]) = step B (run B (init fs0) evs) (.write files) := by
     rw [run_append]; rfl
   rw [this, hstep]
   exact ⟨rfl, resolve_link_dir _ _ _ hfin.tgt hfin.dir.1, hfin.dir⟩
 
+example : AllValid [(.str "tls.crt", [1]), (.str "tls.key", [])] := by
+  intro kb hkb; simp at hkb; rcases hkb with rfl | rfl <;> decide
+
 /-- After a crash at ANY point `k` of a `Write` (following any history), the `Dir` that continues
-is a fresh one (`prev = none`), its `Write` returns nil, and the target shows the new set. -/
+is a fresh one (`prev = none`), its `Write` (valid names) returns nil, and the target shows the
+new set. -/
 theorem recover_succeeds (B : Path) (fs0 : FS) (h0 : Clean B fs0) (evs : List Ev)
-    (dead : Files) (k : Nat) (files : Files) :
+    (dead : Files) (k : Nat) (files : Files) (hv : AllValid files) :
     (run B (init fs0) (evs ++ [.crash dead k])).prev = none ∧
     (run B (init fs0) ((evs ++ [.crash dead k]) ++ [.write files])).lastErr = none ∧
     ∃ n, resolve (run B (init fs0) ((evs ++ [.crash dead k]) ++ [.write files])).fs (target B)
@@ -86,18 +123,19 @@ theorem recover_succeeds (B : Path) (fs0 : FS) (h0 : Clean B fs0) (evs : List Ev
       DirIs (run B (init fs0) ((evs ++ [.crash dead k]) ++ [.write files])).fs (verDir B n) (asMap files) := by
   refine ⟨?_, ?_⟩
   · rw [run_append]; rfl
-  · obtain ⟨h1, h2, h3⟩ := write_always_succeeds B fs0 h0 (evs ++ [.crash dead k]) files
+  · obtain ⟨h1, h2, h3⟩ := write_always_succeeds B fs0 h0 (evs ++ [.crash dead k]) files hv
     exact ⟨h1, _, h2, h3⟩
 
-/-- Without crashes exactly one version directory remains after each `Write`: below the base
-there is only the target link and the version directory it points to, which holds the files of
-the last `Write`. -/
-theorem no_crash_single_version (B : Path) (fs0 : FS) (h0 : Clean B fs0) (ws : List Files) (last : Files) :
+/-- Without crashes (and with valid names, so that no `Write` fails) exactly one version
+directory remains after each `Write`: below the base there is only the target link and the
+version directory it points to, which holds the files of the last `Write`. -/
+theorem no_crash_single_version (B : Path) (fs0 : FS) (h0 : Clean B fs0) (ws : List Files)
+    (last : Files) (hv : ∀ w ∈ ws ++ [last], AllValid w) :
     ∃ n, look (run B (init fs0) ((ws ++ [last]).map .write)).fs (target B) = some (.link (verDir B n)) ∧
       DirIs (run B (init fs0) ((ws ++ [last]).map .write)).fs (verDir B n) (asMap last) ∧
       OnlyVersion B (run B (init fs0) ((ws ++ [last]).map .write)).fs n := by
-  have hcf := cf_run B ws _ (cf_init B fs0 h0)
-  obtain ⟨_, fs', hstep, hfin, honly⟩ := cf_step B _ last hcf
+  have hcf := cf_run B fs0 h0 ws (fun w hw => hv w (by simp [hw])) _ (cf_init B fs0 h0)
+  obtain ⟨_, fs', hstep, hfin, honly⟩ := cf_step B fs0 h0 _ last (hv last (by simp)) hcf
   have : run B (init fs0) ((ws ++ [last]).map .write) =
       step B (run B (init fs0) (ws.map .write)) (.write last) := by
     rw [List.map_append, run_append]; rfl
@@ -105,31 +143,161 @@ theorem no_crash_single_version (B : Path) (fs0 : FS) (h0 : Clean B fs0) (ws : L
   exact ⟨_, hfin.tgt, hfin.dir, honly⟩
 
 /-- "Absent only before the first completed rename": if the target is absent after a history,
-then every `Write` of that history was killed before it completed its `Rename` (the rename is
-operation number `files.length + 5` of a `Write`). -/
+then every event of that history with valid file names is a `Write` killed before it completed its
+`Rename` (the rename is operation number `files.length + 5`). (A `Write` with an invalid name
+returns an error before its rename.) -/
 theorem target_absent_only_before_first_rename (B : Path) (fs0 : FS) (h0 : Clean B fs0)
     (evs : List Ev) (h : look (run B (init fs0) evs).fs (target B) = none) :
-    ∀ ev ∈ evs, ∃ f k, ev = .crash f k ∧ k < f.length + 5 := by
-  intro ev hev
+    ∀ ev ∈ evs, AllValid ev.files → ∃ f k, ev = .crash f k ∧ k < f.length + 5 := by
+  intro ev hev hv
   obtain ⟨e1, e2, rfl⟩ := List.append_of_mem hev
+  have hp := prior_of_clean h0
   have hinv := inv_history B fs0 h0 e1
+  have hnd := tgt_not_dir hinv (by simp [clean_target_none h0])
   have contra : look (step B (run B (init fs0) e1) ev).fs (target B) ≠ none → False := by
-    intro hp
+    intro hpres
     have hp' : look (run B (init fs0) (e1 ++ [ev])).fs (target B) ≠ none := by
-      rw [run_append]; exact hp
+      rw [run_append]; exact hpres
     have := target_never_disappears B fs0 h0 (e1 ++ [ev]) e2 hp'
     simp only [List.append_assoc, List.singleton_append] at this
     exact this h
   cases ev with
   | write f =>
     exfalso; apply contra
-    obtain ⟨fs', hstep, hfin⟩ := write_result B _ _ f hinv
+    obtain ⟨fs', hstep, hfin⟩ := write_result B fs0 0 hp _ _ f hinv hv hnd
     rw [hstep, hfin.tgt]; simp
   | crash f k =>
     by_cases hk : k < f.length + 5
     · exact ⟨f, k, rfl, hk⟩
     · exfalso; apply contra
-      rw [crash_after_rename_present B _ _ f k hinv (by omega)]; simp
+      rw [crash_after_rename_present B fs0 0 hp _ _ f k hinv hv hnd (by omega)]; simp
+
+/-! ### every state an earlier process can have left (`Prior`), error paths -/
+
+/-- For EVERY `Prior` start — the target absent, or a symlink left by an earlier process (to an
+existing version directory, dangling, or anywhere not managed by this process), or a plain file,
+or a plain directory; a stale `<target>.new` link or file; older version directories; anything
+else elsewhere — at every instant of every history the target is absent, or exactly one `Write`'s
+complete set, or still the pre-existing entry, untouched together with everything below it and
+everything it points to. -/
+theorem target_always_complete_prior (B : Path) (fs0 : FS) (c0 : Nat) (hp : Prior B c0 fs0)
+    (evs : List Ev) :
+    look (run B (initAt fs0 c0) evs).fs (target B) = none ∨
+    (∃ n files, files ∈ evs.map Ev.files ∧
+      resolve (run B (initAt fs0 c0) evs).fs (target B) = some (verDir B n, .dir) ∧
+      DirIs (run B (initAt fs0 c0) evs).fs (verDir B n) (asMap files)) ∨
+    ForeignKept B fs0 (run B (initAt fs0 c0) evs).fs := by
+  rcases (inv_history_at B fs0 c0 hp evs).1.tgt with h | ⟨n, files, _, _, hmem, hl, hd⟩ | h
+  · exact Or.inl h
+  · exact Or.inr (Or.inl ⟨n, files, by simpa using hmem, resolve_link_dir _ _ _ hl hd.1, hd⟩)
+  · exact Or.inr (Or.inr h)
+
+/-- What an earlier process may have left: an old version directory the target still links to,
+and a stale `.new` link to a version directory that no longer exists. -/
+def priorExample : FS :=
+  [([.str "b"], .dir), ([.str "b", .ver 1], .dir), ([.str "b", .ver 1, .str "old"], .file [7]),
+   ([.str "b", .tgt], .link [.str "b", .ver 1]), ([.str "b", .tgtNew], .link [.str "b", .ver 2])]
+
+example : Prior [.str "b"] 3 priorExample := by
+  refine ⟨?_, ?_, by decide, ?_⟩
+  · intro q hq
+    have : q = [] ∨ q = [.str "b"] := by
+      cases q with
+      | nil => exact Or.inl rfl
+      | cons a t =>
+        rw [List.cons_prefix_cons] at hq
+        obtain ⟨rfl, ht⟩ := hq
+        have : t = [] := List.prefix_nil.1 ht
+        subst this; exact Or.inr rfl
+    rcases this with rfl | rfl <;> decide
+  · intro n hn r
+    have h1 : ¬ (1 = n) := by omega
+    simp [look, get, priorExample, h1]
+  · intro t ht
+    have : t = [.str "b", .ver 1] := by
+      have : look priorExample (target [.str "b"]) = some (.link [.str "b", .ver 1]) := by decide
+      rw [this] at ht; injection ht with ht; injection ht with ht; exact ht.symm
+    subst this
+    refine ⟨by simp [List.cons_prefix_cons], by decide, by decide, ?_⟩
+    intro n s hn h
+    simp at h
+    omega
+
+-- old link + stale .new: the fresh Dir's Write succeeds
+example : (run [.str "b"] (initAt priorExample 3) [.write [(.str "a", [1])]]).lastErr = none := by decide
+-- dangling target link
+example : (run [.str "b"] (initAt [([.str "b"], .dir), ([.str "b", .tgt], .link [.str "b", .ver 0])] 1)
+    [.write [(.str "a", [1])]]).lastErr = none := by decide
+-- a plain file at the target is replaced
+example : (run [.str "b"] (initAt [([.str "b"], .dir), ([.str "b", .tgt], .file [9])] 0)
+    [.write [(.str "a", [1])]]).lastErr = none := by decide
+-- a plain directory at the target: EEXIST, and again EEXIST
+example : (run [.str "b"] (initAt [([.str "b"], .dir), ([.str "b", .tgt], .dir)] 0)
+    [.write [(.str "a", [1])], .write []]).lastErr = some .EEXIST := by decide
+-- an invalid file name: the Write fails, the previous set stays
+example : (run [.str "b"] (init []) [.write [(.str "a", [1])], .write [(.str "sub/x", [2])]]).lastErr
+    = some .BADNAME := by decide
+
+/-- "A fresh Dir on the same target can Write successfully" from every `Prior` start in which
+the target is not a plain directory (so: absent, any symlink — live, dangling, foreign —, a plain
+file; with or without a stale `.new`): after any history, every `Write` with valid names returns
+nil and the target shows exactly its set. -/
+theorem write_succeeds_from_prior (B : Path) (fs0 : FS) (c0 : Nat) (hp : Prior B c0 fs0)
+    (hnd0 : look fs0 (target B) ≠ some .dir) (evs : List Ev) (files : Files) (hv : AllValid files) :
+    (run B (initAt fs0 c0) (evs ++ [.write files])).lastErr = none ∧
+    resolve (run B (initAt fs0 c0) (evs ++ [.write files])).fs (target B)
+      = some (verDir B (run B (initAt fs0 c0) evs).clock, .dir) ∧
+    DirIs (run B (initAt fs0 c0) (evs ++ [.write files])).fs
+      (verDir B (run B (initAt fs0 c0) evs).clock) (asMap files) := by
+  have hinv := inv_history_at B fs0 c0 hp evs
+  obtain ⟨fs', hstep, hfin⟩ := write_result B fs0 c0 hp _ _ files hinv hv (tgt_not_dir hinv hnd0)
+  have : run B (initAt fs0 c0) (evs ++ [.write files]) =
+      step B (run B (initAt fs0 c0) evs) (.write files) := by
+    rw [run_append]; rfl
+  rw [this, hstep]
+  exact ⟨rfl, resolve_link_dir _ _ _ hfin.tgt hfin.dir.1, hfin.dir⟩
+
+/-- A plain DIRECTORY at the target (not created by `Dir`; outside the property's quantifier): the
+`Rename` of the link over it fails (Go: EEXIST), so every `Write` of every history returns an
+error, and the directory with everything below it stays untouched — forever. -/
+theorem target_directory_blocks_writes (B : Path) (fs0 : FS) (c0 : Nat) (hp : Prior B c0 fs0)
+    (hd0 : look fs0 (target B) = some .dir) (evs : List Ev) (files : Files) :
+    (run B (initAt fs0 c0) (evs ++ [.write files])).lastErr ≠ none ∧
+    look (run B (initAt fs0 c0) (evs ++ [.write files])).fs (target B) = some .dir ∧
+    ∀ x r, look (run B (initAt fs0 c0) (evs ++ [.write files])).fs (target B ++ x :: r)
+      = look fs0 (target B ++ x :: r) := by
+  have hall : ∀ evs, look (run B (initAt fs0 c0) evs).fs (target B) = some .dir :=
+    fun evs => (inv_run B fs0 c0 hp evs _ _ (inv_init B fs0 c0 hp)).2.2 (by simpa [initAt] using hd0)
+  have hinv := inv_history_at B fs0 c0 hp evs
+  refine ⟨?_, hall _, ?_⟩
+  · rw [run_append]
+    intro hnone
+    have := (write_ok_iff B fs0 c0 hp _ _ files hinv).1 hnone
+    exact this.2 (hall evs)
+  · rcases (inv_history_at B fs0 c0 hp (evs ++ [.write files])).1.tgt with h | ⟨n, fl, _, _, _, h, _⟩ | h
+    · rw [hall] at h; simp at h
+    · rw [hall] at h; simp at h
+    · exact h.2.2.1
+
+/-- Error paths: a `Write` returns an error exactly when a file name is invalid or the target is
+a plain directory; and a `Write` that returns an error — whatever the reason, after any history,
+from any `Prior` start — leaves the target entry as it was, the directory it points to intact
+(the previous complete set), and `prev` unchanged. -/
+theorem failed_write_keeps_target (B : Path) (fs0 : FS) (c0 : Nat) (hp : Prior B c0 fs0)
+    (evs : List Ev) (files : Files) :
+    ((step B (run B (initAt fs0 c0) evs) (.write files)).lastErr = none ↔
+      (AllValid files ∧ look (run B (initAt fs0 c0) evs).fs (target B) ≠ some .dir)) ∧
+    ((step B (run B (initAt fs0 c0) evs) (.write files)).lastErr ≠ none →
+      look (step B (run B (initAt fs0 c0) evs) (.write files)).fs (target B)
+        = look (run B (initAt fs0 c0) evs).fs (target B) ∧
+      (∀ n m, DirIs (run B (initAt fs0 c0) evs).fs (verDir B n) m →
+        DirIs (step B (run B (initAt fs0 c0) evs) (.write files)).fs (verDir B n) m) ∧
+      (step B (run B (initAt fs0 c0) evs) (.write files)).prev = (run B (initAt fs0 c0) evs).prev) := by
+  have hinv := inv_history_at B fs0 c0 hp evs
+  refine ⟨write_ok_iff B fs0 c0 hp _ _ files hinv, ?_⟩
+  intro herr
+  obtain ⟨hf, hprev, _⟩ := write_failed B fs0 c0 hp _ _ files hinv herr
+  exact ⟨hf.tgt, fun n m hd => hf.keeps_dir (hinv.1.fresh _ (Nat.le_refl _)) n m hd, hprev⟩
 
 /-! ### the code before the repair -/
 
@@ -172,41 +340,67 @@ theorem stale_new_blocks_forever (B : Path) (s : St) (ws : List Files) (w : File
 example : look (runWith origSteps [.str "b"] (init []) [.crash [(.str "a", [1])] 4]).fs
     (targetNew [.str "b"]) ≠ none := by decide
 
-/-! ### a crash INSIDE a call (WriteFile / RemoveAll are not single system calls) -/
+/-! ### a crash INSIDE a call (MkdirAll / WriteFile / RemoveAll are not single system calls) -/
 
-/-- If the process dies inside `WriteFile` or `RemoveAll`, the file system differs from one of the
-crash states above only inside a version directory the target does not point to (`ResidueOnly`).
-Any such residue is harmless: for every continuation by a fresh `Dir` the target is still absent
-or exactly one `Write`'s file set, and every `Write` of the continuation succeeds. -/
+/-- If the process dies inside `MkdirAll`, `WriteFile` or `RemoveAll`, the file system differs
+from one of the crash states above only by some created ancestors of the base and/or inside a
+version directory of this process that the target does not point to (`ResidueOnly`). Any such
+residue is harmless: for every continuation by a fresh `Dir` the target is still absent or
+exactly one `Write`'s file set, and every `Write` (valid names) of the continuation succeeds. -/
 theorem residue_of_interrupted_call_harmless (B : Path) (fs0 : FS) (h0 : Clean B fs0)
     (evs : List Ev) (fs' : FS)
-    (hres : ResidueOnly B (run B (init fs0) evs).clock (run B (init fs0) evs).fs fs')
+    (hres : ResidueOnly B 0 (run B (init fs0) evs).clock (run B (init fs0) evs).fs fs')
     (cont : List Ev) :
     (resolve (run B { run B (init fs0) evs with fs := fs', prev := none } cont).fs (target B) = none ∨
      ∃ n files, files ∈ (evs ++ cont).map Ev.files ∧
       resolve (run B { run B (init fs0) evs with fs := fs', prev := none } cont).fs (target B)
         = some (verDir B n, .dir) ∧
       DirIs (run B { run B (init fs0) evs with fs := fs', prev := none } cont).fs (verDir B n) (asMap files)) ∧
-    ∀ files, (step B (run B { run B (init fs0) evs with fs := fs', prev := none } cont) (.write files)).lastErr = none := by
-  have hinv := inv_of_residue B _ _ fs' (inv_history B fs0 h0 evs) hres
-  have hrun := (inv_run B cont _ _ hinv).1
+    ∀ files, AllValid files →
+      (step B (run B { run B (init fs0) evs with fs := fs', prev := none } cont) (.write files)).lastErr = none := by
+  have hp := prior_of_clean h0
+  have hinv := inv_of_residue B fs0 0 hp _ _ fs' (inv_history B fs0 h0 evs) hres
+  have hrun := (inv_run B fs0 0 hp cont _ _ hinv).1
   refine ⟨?_, ?_⟩
-  · rcases hrun.1.tgt with h | ⟨n, files, _, hmem, hl, hd⟩
+  · rcases absent_or_complete_of_clean h0 hrun.1.tgt with h | ⟨n, files, _, _, hmem, hl, hd⟩
     · exact Or.inl (resolve_none _ _ h)
     · refine Or.inr ⟨n, files, ?_, resolve_link_dir _ _ _ hl hd.1, hd⟩
       simp only [List.mem_append, List.mem_reverse, List.map_append] at hmem ⊢
       exact hmem.symm
-  · intro files
-    obtain ⟨fs'', hstep, _⟩ := write_result B _ _ files hrun
+  · intro files hv
+    have hnd := tgt_not_dir hrun (by simp [clean_target_none h0])
+    obtain ⟨fs'', hstep, _⟩ := write_result B fs0 0 hp _ _ files hrun hv hnd
     rw [hstep]
 
-example : ResidueOnly [.str "b"] 1
+/-- The same for every `Prior` start (pre-existing entries): the invariant survives the residue,
+so all theorems about continuations apply. -/
+theorem residue_harmless_prior (B : Path) (fs0 : FS) (c0 : Nat) (hp : Prior B c0 fs0)
+    (evs : List Ev) (fs' : FS)
+    (hres : ResidueOnly B c0 (run B (initAt fs0 c0) evs).clock (run B (initAt fs0 c0) evs).fs fs')
+    (cont : List Ev) :
+    ∃ H, Inv B fs0 c0 (run B { run B (initAt fs0 c0) evs with fs := fs', prev := none } cont) H :=
+  ⟨_, (inv_run B fs0 c0 hp cont _ _
+    (inv_of_residue B fs0 c0 hp _ _ fs' (inv_history_at B fs0 c0 hp evs) hres)).1⟩
+
+-- residue of an interrupted WriteFile: a torn file in the unlinked new version directory
+example : ResidueOnly [.str "b"] 0 1
     (run [.str "b"] (init []) [.crash [(.str "a", [1, 2, 3])] 3]).fs
     (set (run [.str "b"] (init []) [.crash [(.str "a", [1, 2, 3])] 3]).fs
       [.str "b", .ver 0, .str "a"] (some (.file [1]))) := by
   intro q
   by_cases hq : q = [.str "b", .ver 0, .str "a"]
-  · right; exact ⟨0, [.str "a"], by simp [hq], by decide, by decide⟩
+  · right; right; exact ⟨0, [.str "a"], by simp [hq], by decide, by decide, by decide⟩
   · left; rw [look_set _ _ _ _ (by simp)]; simp [hq]
+
+-- residue of an interrupted MkdirAll(base): only the first ancestor exists
+example : ResidueOnly [.str "x", .str "y"] 0 0 [] [([.str "x"], .dir)] := by
+  intro q
+  by_cases hq : q = [.str "x"]
+  · right; left; subst hq; exact ⟨by simp [List.cons_prefix_cons], by simp [look, get], by simp [look, get]⟩
+  · left
+    by_cases h0 : q = []
+    · simp [h0, look]
+    · have : ¬ [Name.str "x"] = q := fun h => hq h.symm
+      simp [look, get, h0, this]
 
 end Kit.Dir
